@@ -7,6 +7,8 @@
   here is executable model code.
 -/
 import Cmr.Tree
+import CmrProofs.Lemmas.TUClosure
+import CmrProofs.Lemmas.SPLemmas
 import Mathlib.Tactic
 
 set_option linter.unusedSimpArgs false
@@ -719,5 +721,488 @@ theorem recompSum_ok_iff (nd : FNode) (kids : List (ChildInfo × FNode)) :
     intro c0 k0 c1 k1 hkk
     exact absurd hkk (hk c0 k0 c1 k1)
 
+
+
+/-! ### acceptance of the pieces of `checkFlags` -/
+
+
+theorem checkGraphLeaf_false_ok_iff (nd : FNode) (gd : GraphData) :
+    checkGraphLeaf nd gd false = .ok () ↔
+      checkGraphCert nd.matrix.numRows nd.matrix.numCols nd.matrix.toDense gd.g gd.forest gd.coforest nd.ternary = .ok () := by
+  unfold checkGraphLeaf
+  simp only [Bool.false_eq_true, if_false]
+  split
+  · rename_i u h; simp [h]
+  · rename_i e h; simp [h]
+
+theorem checkGraphLeaf_true_ok_iff (nd : FNode) (gd : GraphData) :
+    checkGraphLeaf nd gd true = .ok () ↔
+      checkGraphCert nd.matrix.numCols nd.matrix.numRows
+        (transpose nd.matrix.numRows nd.matrix.numCols nd.matrix.toDense) gd.g gd.forest gd.coforest nd.ternary = .ok () := by
+  unfold checkGraphLeaf
+  simp only [if_true]
+  split
+  · rename_i u h; simp [h]
+  · rename_i e h; simp [h]
+
+theorem flagsGraph_ok_iff (nodes : List FNode) (nd : FNode) (k : Except (String × String) Unit) :
+    flagsGraph nodes nd k = .ok () ↔
+      (∀ gd, nd.graph = some gd → checkGraphCert nd.matrix.numRows nd.matrix.numCols nd.matrix.toDense gd.g gd.forest
+        gd.coforest nd.ternary = .ok ()) ∧ k = .ok () := by
+  unfold flagsGraph
+  cases nd.graph with
+  | none => simp [Ex.pure_eq, Ex.ok_bind]
+  | some gd =>
+    simp only [Ex.bind_eq_ok, Option.some.injEq, forall_eq', ← checkGraphLeaf_false_ok_iff]
+    constructor
+    · rintro ⟨u, h1, h2⟩; exact ⟨h1, h2⟩
+    · rintro ⟨h1, h2⟩; exact ⟨(), h1, h2⟩
+
+theorem flagsCograph_ok_iff (nodes : List FNode) (nd : FNode) (k : Except (String × String) Unit) :
+    flagsCograph nodes nd k = .ok () ↔
+      (∀ gd, nd.cograph = some gd → checkGraphCert nd.matrix.numCols nd.matrix.numRows
+        (transpose nd.matrix.numRows nd.matrix.numCols nd.matrix.toDense) gd.g gd.forest gd.coforest nd.ternary = .ok ()) ∧
+      k = .ok () := by
+  unfold flagsCograph
+  cases nd.cograph with
+  | none => simp [Ex.pure_eq, Ex.ok_bind]
+  | some gd =>
+    simp only [Ex.bind_eq_ok, Option.some.injEq, forall_eq', ← checkGraphLeaf_true_ok_iff]
+    constructor
+    · rintro ⟨u, h1, h2⟩; exact ⟨h1, h2⟩
+    · rintro ⟨h1, h2⟩; exact ⟨(), h1, h2⟩
+
+/-- the children of `nd` that exist in the node list (as `checkFlags` computes them) -/
+def flagKids (nodes : List FNode) (nd : FNode) : List FNode := nd.children.filterMap (fun ci => findNode nodes ci.child)
+
+/-- row/column indices of a stored submatrix: negative entries are dropped -/
+def decodeIdx (l : List Int) : List Nat := l.filterMap (fun v => if v < 0 then none else some v.toNat)
+
+def regOracle (nd : FNode) : Bool :=
+  if nd.ternary then isTU nd.matrix.numRows nd.matrix.numCols nd.matrix.toDense
+  else isRegular nd.matrix.numCols nd.matrix.toDense
+def graOracle (nd : FNode) : Bool :=
+  if nd.ternary then isNetwork nd.matrix.numRows nd.matrix.numCols nd.matrix.toDense
+  else isGraphic nd.matrix.numRows nd.matrix.numCols nd.matrix.toDense
+def cograOracle (nd : FNode) : Bool :=
+  if nd.ternary then isNetwork nd.matrix.numCols nd.matrix.numRows (transpose nd.matrix.numRows nd.matrix.numCols nd.matrix.toDense)
+  else isGraphic nd.matrix.numCols nd.matrix.numRows (transpose nd.matrix.numRows nd.matrix.numCols nd.matrix.toDense)
+
+def innerReg : List Int := [NodeType.pivots, NodeType.onesum, NodeType.twosum, NodeType.deltasum, NodeType.threesum, NodeType.ysum, NodeType.seriesParallel]
+def innerGra : List Int := [NodeType.pivots, NodeType.onesum, NodeType.twosum, NodeType.deltasum, NodeType.seriesParallel]
+def innerCo : List Int := [NodeType.pivots, NodeType.onesum, NodeType.twosum, NodeType.ysum, NodeType.seriesParallel]
+
+theorem flagKids_eq (nodes : List FNode) (nd : FNode) :
+    nd.children.filterMap (fun ci => findNode nodes ci.child) = flagKids nodes nd := rfl
+theorem regOracle_eq (nd : FNode) :
+    (if nd.ternary then isTU nd.matrix.numRows nd.matrix.numCols nd.matrix.toDense
+      else isRegular nd.matrix.numCols nd.matrix.toDense) = regOracle nd := rfl
+theorem graOracle_eq (nd : FNode) :
+    (if nd.ternary then isNetwork nd.matrix.numRows nd.matrix.numCols nd.matrix.toDense
+      else isGraphic nd.matrix.numRows nd.matrix.numCols nd.matrix.toDense) = graOracle nd := rfl
+theorem cograOracle_eq (nd : FNode) :
+    (if nd.ternary then isNetwork nd.matrix.numCols nd.matrix.numRows (transpose nd.matrix.numRows nd.matrix.numCols nd.matrix.toDense)
+      else isGraphic nd.matrix.numCols nd.matrix.numRows (transpose nd.matrix.numRows nd.matrix.numCols nd.matrix.toDense)) =
+      cograOracle nd := rfl
+theorem innerReg_eq : [NodeType.pivots, NodeType.onesum, NodeType.twosum, NodeType.deltasum, NodeType.threesum, NodeType.ysum, NodeType.seriesParallel] = innerReg := rfl
+theorem innerGra_eq : [NodeType.pivots, NodeType.onesum, NodeType.twosum, NodeType.deltasum, NodeType.seriesParallel] = innerGra := rfl
+theorem innerCo_eq : [NodeType.pivots, NodeType.onesum, NodeType.twosum, NodeType.ysum, NodeType.seriesParallel] = innerCo := rfl
+
+theorem flagsType_ok_iff (nodes : List FNode) (nd : FNode) (k : Except (String × String) Unit) :
+    flagsType nodes nd k = .ok () ↔
+      ((nd.type = NodeType.graph → 0 < nd.gra) ∧ (nd.type = NodeType.cograph → 0 < nd.cogra) ∧
+       (nd.type = NodeType.planar → 0 < nd.gra ∧ 0 < nd.cogra) ∧
+       (nd.type = NodeType.graph ∨ nd.type = NodeType.cograph ∨ nd.type = NodeType.planar ∨ nd.type = NodeType.r10 →
+          0 < nd.reg) ∧
+       (nd.type = NodeType.irregular → nd.reg < 0)) ∧ k = .ok () := by
+  unfold flagsType
+  simp only [Ex.throw_bind, Ex.ite_error_eq_ok, Ex.bind_eq_ok, pure_bind, Ex.pure_eq]
+  simp only [Bool.and_eq_true, Bool.or_eq_true, beq_iff_eq, decide_eq_true_eq, Bool.not_eq_true', not_and, not_le,
+    Bool.and_eq_false_iff, decide_eq_false_iff_not, not_lt, gt_iff_lt, ge_iff_le, and_assoc, or_assoc]
+  simp only [not_or, not_le]
+
+theorem flagsProp_ok_iff (nodes : List FNode) (nd : FNode) (k : Except (String × String) Unit) :
+    flagsProp nodes nd k = .ok () ↔
+      ((nd.type ∈ innerReg → 0 < nd.reg →
+          (∀ c ∈ flagKids nodes nd, 0 < c.reg) ∧ (flagKids nodes nd).length = nd.children.length) ∧
+       (nd.type ∈ innerGra → 0 < nd.gra → ∀ c ∈ flagKids nodes nd, 0 < c.gra) ∧
+       (nd.type ∈ innerCo → 0 < nd.cogra → ∀ c ∈ flagKids nodes nd, 0 < c.cogra)) ∧ k = .ok () := by
+  unfold flagsProp
+  simp only [Ex.throw_bind, Ex.ite_error_eq_ok, Ex.bind_eq_ok, pure_bind, Ex.pure_eq]
+  simp only [flagKids_eq, innerReg_eq, innerGra_eq, innerCo_eq]
+  simp only [Bool.and_eq_true, List.contains_iff_mem, decide_eq_true_eq, Bool.not_eq_true', not_and,
+    Bool.not_eq_false, List.all_eq_true, beq_iff_eq, gt_iff_lt, and_assoc, Bool.and_eq_false_iff, not_or]
+
+theorem flagsR10_ok_iff (nodes : List FNode) (nd : FNode) (k : Except (String × String) Unit) :
+    flagsR10 nodes nd k = .ok () ↔
+      (nd.type = NodeType.r10 → nd.matrix.numRows = 5 ∧ nd.matrix.numCols = 5 ∧
+        isR10Support (support nd.matrix.toDense) = true ∧ (nd.ternary = true → isTU 5 5 nd.matrix.toDense = true)) ∧
+      k = .ok () := by
+  unfold flagsR10
+  simp only [Ex.throw_bind, Ex.ite_error_eq_ok, Ex.bind_eq_ok, pure_bind, Ex.pure_eq]
+  by_cases ht : nd.type = NodeType.r10
+  · simp only [ht, beq_self_eq_true, if_true, Ex.ite_error_eq_ok, forall_const]
+    simp only [Bool.not_eq_true', Bool.not_eq_false, Bool.and_eq_true, beq_iff_eq, not_and, and_assoc]
+  · have : (nd.type == NodeType.r10) = false := by simpa using ht
+    simp [this, ht]
+
+/-- what `checkFlags` demands of a stored minor of type `-2` (determinant violator) -/
+def MinorOk (nd : FNode) (mn : MinorData) : Prop :=
+  mn.type = -2 → ∃ rsI csI, mn.sub = some (rsI, csI) ∧
+    (decodeIdx rsI).length = rsI.length ∧ (decodeIdx csI).length = csI.length ∧
+    (decodeIdx rsI).length = (decodeIdx csI).length ∧
+    (∀ x ∈ decodeIdx rsI, x < nd.matrix.numRows) ∧ (∀ x ∈ decodeIdx csI, x < nd.matrix.numCols) ∧
+    (decodeIdx rsI).Nodup ∧ (decodeIdx csI).Nodup ∧
+    ((decodeIdx rsI).length ≤ 8 →
+      2 ≤ detL (decodeIdx rsI).length (sub nd.matrix.toDense (decodeIdx rsI) (decodeIdx csI)) ∨
+      detL (decodeIdx rsI).length (sub nd.matrix.toDense (decodeIdx rsI) (decodeIdx csI)) ≤ -2)
+
+theorem Ex.forIn_unit_ok_iff' {ε α : Type} (f : α → PUnit.{1} → Except ε (ForInStep PUnit.{1})) (l : List α)
+    (P : α → Prop) (hf : ∀ x r, f x PUnit.unit = Except.ok r ↔ (r = ForInStep.yield PUnit.unit ∧ P x)) :
+    (∃ u, forIn l PUnit.unit f = Except.ok u) ↔ ∀ x ∈ l, P x := by
+  have : (∃ u, forIn l PUnit.unit f = Except.ok u) ↔ forIn l PUnit.unit f = Except.ok PUnit.unit := by
+    constructor
+    · rintro ⟨u, hu⟩; exact hu
+    · intro h; exact ⟨_, h⟩
+  rw [this, Ex.forIn_unit_ok_iff]
+  · apply forall₂_congr
+    intro x _
+    rw [hf]; simp
+  · intro x r hr
+    exact ((hf x r).mp hr).1
+
+theorem flagsMinors_ok_iff (nodes : List FNode) (nd : FNode) (k : Except (String × String) Unit) :
+    flagsMinors nodes nd k = .ok () ↔ (∀ mn ∈ nd.minors, MinorOk nd mn) ∧ k = .ok () := by
+  unfold flagsMinors
+  simp only [Ex.throw_bind, Ex.throw_eq, Ex.error_bind, Ex.bind_eq_ok, pure_bind, Ex.pure_eq, exists_and_right]
+  apply and_congr _ Iff.rfl
+  apply Ex.forIn_unit_ok_iff'
+  intro mn r
+  unfold MinorOk
+  by_cases ht : mn.type = -2
+  · have hb : (mn.type == -2) = true := by simpa using ht
+    rw [if_pos hb]
+    simp only [ht, forall_const]
+    cases hs : mn.sub with
+    | none => simp
+    | some p =>
+      obtain ⟨rsI, csI⟩ := p
+      simp only [Option.some.injEq, Prod.mk.injEq]
+      have ex : ∀ P : List Int → List Int → Prop, (∃ a b, (rsI = a ∧ csI = b) ∧ P a b) ↔ P rsI csI := by
+        intro P; constructor
+        · rintro ⟨_, _, ⟨rfl, rfl⟩, h⟩; exact h
+        · intro h; exact ⟨rsI, csI, ⟨rfl, rfl⟩, h⟩
+      rw [ex]
+      simp only [decodeIdx]
+      generalize List.filterMap (fun v : Int => if v < 0 then none else some v.toNat) rsI = rs
+      generalize List.filterMap (fun v : Int => if v < 0 then none else some v.toNat) csI = cs
+      rw [Ex.ite_error_eq_ok]
+      simp only [Bool.not_eq_true', Bool.not_eq_false, Bool.and_eq_true, beq_iff_eq, List.all_eq_true,
+        decide_eq_true_eq, and_assoc]
+      by_cases h8 : rs.length ≤ 8
+      · rw [if_pos h8, Ex.ite_error_eq_ok]
+        simp only [Bool.not_eq_true', Bool.not_eq_false, Bool.or_eq_true, decide_eq_true_eq, ge_iff_le,
+          Except.ok.injEq, h8, forall_const]
+        constructor
+        · rintro ⟨a1, a2, a3, a4, a5, a6, a7, a8, a9⟩
+          exact ⟨a9.symm, a1, a2, a3, a4, a5, a6, a7, a8⟩
+        · rintro ⟨a9, a1, a2, a3, a4, a5, a6, a7, a8⟩
+          exact ⟨a1, a2, a3, a4, a5, a6, a7, a8, a9.symm⟩
+      · rw [if_neg h8]
+        simp only [Except.ok.injEq]
+        constructor
+        · rintro ⟨a1, a2, a3, a4, a5, a6, a7, a9⟩
+          exact ⟨a9.symm, a1, a2, a3, a4, a5, a6, a7, fun h => absurd h h8⟩
+        · rintro ⟨a9, a1, a2, a3, a4, a5, a6, a7, _⟩
+          exact ⟨a1, a2, a3, a4, a5, a6, a7, a9.symm⟩
+  · have hb : ¬ (mn.type == -2) = true := by simpa using ht
+    rw [if_neg hb]
+    simp only [Except.ok.injEq]
+    constructor
+    · intro h; exact ⟨h.symm, fun h' => absurd h' ht⟩
+    · intro h; exact h.1.symm
+
+theorem flagsOracleReg_ok_iff (nodes : List FNode) (nd : FNode) (k : Except (String × String) Unit) :
+    flagsOracleReg nodes nd k = .ok () ↔
+      (nd.matrix.numRows ≤ oracleDim → nd.matrix.numCols ≤ oracleDim →
+        (0 < nd.reg → regOracle nd = true) ∧ (nd.reg < 0 → regOracle nd = false)) ∧ k = .ok () := by
+  unfold flagsOracleReg regOracle
+  simp only [Ex.throw_bind, Ex.throw_eq, Ex.error_bind, Ex.bind_eq_ok, pure_bind, Ex.pure_eq]
+  generalize (if nd.ternary = true then isTU nd.matrix.numRows nd.matrix.numCols nd.matrix.toDense
+      else isRegular nd.matrix.numCols nd.matrix.toDense) = o
+  by_cases hmn : nd.matrix.numRows ≤ oracleDim ∧ nd.matrix.numCols ≤ oracleDim
+  · have hb : (decide (nd.matrix.numRows ≤ oracleDim) && decide (nd.matrix.numCols ≤ oracleDim)) = true := by simpa using hmn
+    rw [if_pos hb, Ex.ite_error_eq_ok, Ex.ite_error_eq_ok]
+    simp only [hmn.1, hmn.2, forall_const]
+    simp only [Bool.and_eq_true, decide_eq_true_eq, Bool.not_eq_true', not_and, Bool.not_eq_false, gt_iff_lt,
+      and_assoc, and_true, Bool.not_eq_true]
+  · have hb : ¬ (decide (nd.matrix.numRows ≤ oracleDim) && decide (nd.matrix.numCols ≤ oracleDim)) = true := by simpa using hmn
+    rw [if_neg hb]
+    constructor
+    · intro hk; exact ⟨fun h1 h2 => absurd ⟨h1, h2⟩ hmn, hk⟩
+    · intro hk; exact hk.2
+
+theorem flagsOracleGra_ok_iff (nodes : List FNode) (nd : FNode) (k : Except (String × String) Unit) :
+    flagsOracleGra nodes nd k = .ok () ↔
+      (nd.matrix.numRows ≤ 5 → nd.matrix.numCols ≤ 7 →
+        (0 < nd.gra → graOracle nd = true) ∧ (nd.gra < 0 → graOracle nd = false)) ∧ k = .ok () := by
+  unfold flagsOracleGra graOracle
+  simp only [Ex.throw_bind, Ex.throw_eq, Ex.error_bind, Ex.bind_eq_ok, pure_bind, Ex.pure_eq]
+  generalize (if nd.ternary = true then isNetwork nd.matrix.numRows nd.matrix.numCols nd.matrix.toDense
+      else isGraphic nd.matrix.numRows nd.matrix.numCols nd.matrix.toDense) = o
+  by_cases hmn : nd.matrix.numRows ≤ 5 ∧ nd.matrix.numCols ≤ 7
+  · have hb : (decide (nd.matrix.numRows ≤ 5) && decide (nd.matrix.numCols ≤ 7)) = true := by simpa using hmn
+    rw [if_pos hb, Ex.ite_error_eq_ok, Ex.ite_error_eq_ok]
+    simp only [hmn.1, hmn.2, forall_const]
+    simp only [Bool.and_eq_true, decide_eq_true_eq, Bool.not_eq_true', not_and, Bool.not_eq_false, gt_iff_lt,
+      and_assoc, and_true, Bool.not_eq_true]
+  · have hb : ¬ (decide (nd.matrix.numRows ≤ 5) && decide (nd.matrix.numCols ≤ 7)) = true := by simpa using hmn
+    rw [if_neg hb]
+    constructor
+    · intro hk; exact ⟨fun h1 h2 => absurd ⟨h1, h2⟩ hmn, hk⟩
+    · intro hk; exact hk.2
+
+theorem flagsOracleCo_ok_iff (nodes : List FNode) (nd : FNode) :
+    flagsOracleCo nodes nd = .ok () ↔
+      nd.matrix.numCols ≤ 5 → nd.matrix.numRows ≤ 7 →
+        (0 < nd.cogra → cograOracle nd = true) ∧ (nd.cogra < 0 → cograOracle nd = false) := by
+  unfold flagsOracleCo cograOracle
+  simp only [Ex.throw_bind, Ex.throw_eq, Ex.error_bind, Ex.bind_eq_ok, pure_bind, Ex.pure_eq]
+  generalize (if nd.ternary = true then isNetwork nd.matrix.numCols nd.matrix.numRows (transpose nd.matrix.numRows nd.matrix.numCols nd.matrix.toDense)
+      else isGraphic nd.matrix.numCols nd.matrix.numRows (transpose nd.matrix.numRows nd.matrix.numCols nd.matrix.toDense)) = o
+  by_cases hmn : nd.matrix.numCols ≤ 5 ∧ nd.matrix.numRows ≤ 7
+  · have hb : (decide (nd.matrix.numCols ≤ 5) && decide (nd.matrix.numRows ≤ 7)) = true := by simpa using hmn
+    rw [if_pos hb, Ex.ite_error_eq_ok, Ex.ite_error_eq_ok]
+    simp only [hmn.1, hmn.2, forall_const]
+    simp only [Bool.and_eq_true, decide_eq_true_eq, Bool.not_eq_true', not_and, Bool.not_eq_false, gt_iff_lt,
+      and_assoc, and_true, Bool.not_eq_true]
+  · have hb : ¬ (decide (nd.matrix.numCols ≤ 5) && decide (nd.matrix.numRows ≤ 7)) = true := by simpa using hmn
+    rw [if_neg hb]
+    constructor
+    · intro hk; exact fun h1 h2 => absurd ⟨h1, h2⟩ hmn
+    · intro hk; exact rfl
+
+
+/-- everything `checkFlags` demands of a node with a consistent matrix -/
+structure FlagsOk (nodes : List FNode) (nd : FNode) : Prop where
+  graph : ∀ gd, nd.graph = some gd → checkGraphCert nd.matrix.numRows nd.matrix.numCols nd.matrix.toDense gd.g gd.forest
+    gd.coforest nd.ternary = .ok ()
+  cograph : ∀ gd, nd.cograph = some gd → checkGraphCert nd.matrix.numCols nd.matrix.numRows
+    (transpose nd.matrix.numRows nd.matrix.numCols nd.matrix.toDense) gd.g gd.forest gd.coforest nd.ternary = .ok ()
+  typeFlags : (nd.type = NodeType.graph → 0 < nd.gra) ∧ (nd.type = NodeType.cograph → 0 < nd.cogra) ∧
+    (nd.type = NodeType.planar → 0 < nd.gra ∧ 0 < nd.cogra) ∧
+    (nd.type = NodeType.graph ∨ nd.type = NodeType.cograph ∨ nd.type = NodeType.planar ∨ nd.type = NodeType.r10 →
+      0 < nd.reg) ∧
+    (nd.type = NodeType.irregular → nd.reg < 0)
+  propagate : (nd.type ∈ innerReg → 0 < nd.reg →
+      (∀ c ∈ flagKids nodes nd, 0 < c.reg) ∧ (flagKids nodes nd).length = nd.children.length) ∧
+    (nd.type ∈ innerGra → 0 < nd.gra → ∀ c ∈ flagKids nodes nd, 0 < c.gra) ∧
+    (nd.type ∈ innerCo → 0 < nd.cogra → ∀ c ∈ flagKids nodes nd, 0 < c.cogra)
+  r10 : nd.type = NodeType.r10 → nd.matrix.numRows = 5 ∧ nd.matrix.numCols = 5 ∧
+    isR10Support (support nd.matrix.toDense) = true ∧ (nd.ternary = true → isTU 5 5 nd.matrix.toDense = true)
+  minors : ∀ mn ∈ nd.minors, MinorOk nd mn
+  oracleReg : nd.matrix.numRows ≤ oracleDim → nd.matrix.numCols ≤ oracleDim →
+    (0 < nd.reg → regOracle nd = true) ∧ (nd.reg < 0 → regOracle nd = false)
+  oracleGra : nd.matrix.numRows ≤ 5 → nd.matrix.numCols ≤ 7 →
+    (0 < nd.gra → graOracle nd = true) ∧ (nd.gra < 0 → graOracle nd = false)
+  oracleCo : nd.matrix.numCols ≤ 5 → nd.matrix.numRows ≤ 7 →
+    (0 < nd.cogra → cograOracle nd = true) ∧ (nd.cogra < 0 → cograOracle nd = false)
+
+/-- `checkFlags` accepts exactly when the matrix is inconsistent (then C03 rejects the node) or all clauses hold. -/
+theorem checkFlags_ok_iff (nodes : List FNode) (nd : FNode) :
+    checkFlags nodes nd = .ok () ↔ (nd.matrix.consistent = true → FlagsOk nodes nd) := by
+  rw [checkFlags_eq]
+  by_cases hc : nd.matrix.consistent = true
+  · have hb : ¬ (!nd.matrix.consistent) = true := by simp [hc]
+    rw [if_neg hb, flagsGraph_ok_iff, flagsCograph_ok_iff, flagsType_ok_iff, flagsProp_ok_iff, flagsR10_ok_iff,
+      flagsMinors_ok_iff, flagsOracleReg_ok_iff, flagsOracleGra_ok_iff, flagsOracleCo_ok_iff]
+    constructor
+    · rintro ⟨h1, h2, h3, h4, h5, h6, h7, h8, h9⟩ _
+      exact ⟨h1, h2, h3, h4, h5, h6, h7, h8, h9⟩
+    · intro h
+      obtain ⟨h1, h2, h3, h4, h5, h6, h7, h8, h9⟩ := h hc
+      exact ⟨h1, h2, h3, h4, h5, h6, h7, h8, h9⟩
+  · have hb : (!nd.matrix.consistent) = true := by simpa using hc
+    rw [if_pos hb]
+    simp [Ex.pure_eq, hc]
+
+theorem mem_flagKids {nodes : List FNode} {nd : FNode} {c : FNode} :
+    c ∈ flagKids nodes nd ↔ ∃ ci ∈ nd.children, findNode nodes ci.child = some c := by
+  simp [flagKids, List.mem_filterMap]
+
+theorem length_filterMap_eq_iff {α β : Type} (f : α → Option β) (l : List α) :
+    (l.filterMap f).length = l.length ↔ ∀ x ∈ l, (f x).isSome = true := by
+  induction l with
+  | nil => simp
+  | cons a l ih =>
+    cases h : f a with
+    | none =>
+      simp only [List.filterMap_cons_none h, List.length_cons, List.mem_cons, forall_eq_or_imp, h, Option.isSome_none,
+        Bool.false_eq_true, false_and, iff_false]
+      have := List.length_filterMap_le f l
+      omega
+    | some b =>
+      simp only [List.filterMap_cons_some h, List.length_cons, Nat.add_right_cancel_iff, ih, List.mem_cons,
+        forall_eq_or_imp, h, Option.isSome_some, true_and]
+
+theorem flagKids_length_iff {nodes : List FNode} {nd : FNode} :
+    (flagKids nodes nd).length = nd.children.length ↔ ∀ ci ∈ nd.children, ∃ c, findNode nodes ci.child = some c := by
+  unfold flagKids
+  rw [length_filterMap_eq_iff]
+  simp only [Option.isSome_iff_exists]
+
+
+
+/-! ### total unimodularity and series-parallel extensions -/
+
+section TU
+open Matrix
+
+theorem signRange_neg {d : ℤ} (h : d ∈ Set.range (SignType.cast : SignType → ℤ)) :
+    -d ∈ Set.range (SignType.cast : SignType → ℤ) := by
+  obtain ⟨s, rfl⟩ := h
+  exact ⟨-s, by simp⟩
+
+/-- Adding one row to a totally unimodular matrix keeps it totally unimodular if the new row is zero, a signed unit
+vector, or a copy or negated copy of another row.  `A` provides all rows of `B` other than `r0`. -/
+theorem tu_of_row {m₀ m' n : Type} [DecidableEq m'] [DecidableEq n] {A : Matrix m₀ n ℤ} {B : Matrix m' n ℤ}
+    (hA : A.IsTotallyUnimodular) (r0 : m') (emb : ∀ x, x ≠ r0 → ∃ y, A y = B x)
+    (hrow : (Nonempty n → ∃ j, ∃ s : SignType, B r0 = Pi.single j (s : ℤ)) ∨
+      (∃ r2, r2 ≠ r0 ∧ ∃ s : ℤ, (s = 1 ∨ s = -1) ∧ B r0 = s • B r2)) :
+    B.IsTotallyUnimodular := by
+  choose y hy using emb
+  rcases hrow with hunit | ⟨r2, hne, s, hs, hcopy⟩
+  · -- `B` is a row-submatrix of `fromRows A (row r0)`
+    let B0 : Matrix Unit n ℤ := fun _ => B r0
+    have hF : (fromRows A B0).IsTotallyUnimodular := hA.fromRows_unitlike (fun hn _ => hunit hn)
+    let g : m' → m₀ ⊕ Unit := fun x => if h : x = r0 then Sum.inr () else Sum.inl (y x h)
+    have : B = (fromRows A B0).submatrix g id := by
+      ext x j
+      simp only [submatrix_apply, id_eq, g]
+      by_cases h : x = r0
+      · subst h; simp only [dif_pos]; rfl
+      · simp [h, hy x h]
+    rw [this]
+    exact hF.submatrix g id
+  · intro k p q hp hq
+    by_cases hex : ∃ i0, p i0 = r0
+    · obtain ⟨i0, hi0⟩ := hex
+      let p' : Fin k → m' := Function.update p i0 r2
+      have hp' : ∀ i, p' i ≠ r0 := by
+        intro i
+        by_cases h : i = i0
+        · subst h; simp [p', hne]
+        · simp only [p', Function.update_of_ne h]
+          intro hc
+          exact h (hp (hc.trans hi0.symm))
+      have e1 : B.submatrix p' q = A.submatrix (fun i => y (p' i) (hp' i)) q := by
+        ext i j
+        simp only [submatrix_apply]
+        rw [hy]
+      have d1 : (B.submatrix p' q).det ∈ Set.range (SignType.cast : SignType → ℤ) := by
+        rw [e1]
+        exact (isTotallyUnimodular_iff A).mp hA k _ _
+      have e2 : B.submatrix p q = updateRow (B.submatrix p' q) i0 (s • (B.submatrix p' q) i0) := by
+        ext i j
+        by_cases h : i = i0
+        · subst h
+          simp only [submatrix_apply, updateRow_self, Pi.smul_apply, p', Function.update_self, hi0]
+          rw [hcopy]; rfl
+        · simp only [submatrix_apply, updateRow_ne h, p', Function.update_of_ne h]
+      rw [e2, det_updateRow_smul, updateRow_eq_self]
+      rcases hs with rfl | rfl
+      · simpa using d1
+      · simpa using signRange_neg d1
+    · have hp' : ∀ i, p i ≠ r0 := fun i hc => hex ⟨i, hc⟩
+      have e1 : B.submatrix p q = A.submatrix (fun i => y (p i) (hp' i)) q := by
+        ext i j
+        simp only [submatrix_apply]
+        rw [hy]
+      rw [e1]
+      exact (isTotallyUnimodular_iff A).mp hA k _ _
+
+/-- the matrix with entry function `E` restricted to the rows in `R` and columns in `C` (index types are subtypes of `ℕ`) -/
+def mxOn (E : Nat → Nat → Int) (R C : List Nat) : Matrix {x // x ∈ R} {y // y ∈ C} ℤ := fun i j => E i.1 j.1
+
+theorem mxOn_transpose (E : Nat → Nat → Int) (R C : List Nat) : (mxOn E R C)ᵀ = mxOn (flipE E) C R := rfl
+
+/-- the TU oracle on `sub M R C` decides total unimodularity of the matrix restricted to the index sets -/
+theorem isTU_sub_iff_mxOn (M : Mat) (R C : List Nat) :
+    isTU R.length C.length (sub M R C) = true ↔ (mxOn (ent M) R C).IsTotallyUnimodular := by
+  rw [isTU_iff]
+  have e1 : toMx R.length C.length (sub M R C) =
+      (mxOn (ent M) R C).submatrix (fun i : Fin R.length => ⟨R[i.val], List.getElem_mem i.isLt⟩)
+        (fun j : Fin C.length => ⟨C[j.val], List.getElem_mem j.isLt⟩) := by
+    ext i j
+    simp only [toMx, submatrix_apply, mxOn]
+    rw [ent_sub M R C i.isLt j.isLt]
+  have e2 : mxOn (ent M) R C =
+      (toMx R.length C.length (sub M R C)).submatrix
+        (fun x : {x // x ∈ R} => ⟨R.idxOf x.1, List.idxOf_lt_length_of_mem x.2⟩)
+        (fun y : {y // y ∈ C} => ⟨C.idxOf y.1, List.idxOf_lt_length_of_mem y.2⟩) := by
+    ext x y
+    simp only [toMx, submatrix_apply, mxOn]
+    rw [ent_sub M R C (List.idxOf_lt_length_of_mem x.2) (List.idxOf_lt_length_of_mem y.2)]
+    simp
+  constructor
+  · intro h; rw [e2]; exact h.submatrix _ _
+  · intro h; rw [e1]; exact h.submatrix _ _
+
+/-- total unimodularity on index sets only depends on the sets -/
+theorem mxOn_TU_of_subset {E : Nat → Nat → Int} {R C R' C' : List Nat} (hR : ∀ x ∈ R', x ∈ R) (hC : ∀ y ∈ C', y ∈ C)
+    (h : (mxOn E R C).IsTotallyUnimodular) : (mxOn E R' C').IsTotallyUnimodular := by
+  have : mxOn E R' C' = (mxOn E R C).submatrix (fun x => ⟨x.1, hR _ x.2⟩) (fun y => ⟨y.1, hC _ y.2⟩) := rfl
+  rw [this]
+  exact h.submatrix _ _
+
+/-- Putting back a removable line (zero, unit or ± copy) preserves total unimodularity, provided the entries on the
+index sets are in {-1,0,1} (needed for the unit case: the single nonzero must be ±1). -/
+theorem lineRem_TU {t : Bool} {E : Nat → Nat → Int} {R C : List Nat} {r : Nat}
+    (hT : ∀ x ∈ R, ∀ y ∈ C, E x y = 0 ∨ E x y = 1 ∨ E x y = -1)
+    (h : LineRem t E R C r) (hA : (mxOn E (R.erase r) C).IsTotallyUnimodular) :
+    (mxOn E R C).IsTotallyUnimodular := by
+  obtain ⟨hr, hline⟩ := h
+  apply tu_of_row hA (⟨r, hr⟩ : {x // x ∈ R})
+  · intro x hx
+    have hne : x.1 ≠ r := fun hc => hx (Subtype.ext hc)
+    exact ⟨⟨x.1, (List.mem_erase_of_ne hne).mpr x.2⟩, rfl⟩
+  · rcases hline with hz | ⟨c, hc, hnz, huniq⟩ | ⟨r2, hr2, hne, hcopy⟩
+    · left
+      intro ⟨j⟩
+      refine ⟨j, 0, ?_⟩
+      funext y
+      simp only [mxOn, SignType.coe_zero, Pi.single_zero, Pi.zero_apply]
+      exact hz y.1 y.2
+    · left
+      intro _
+      have hv := hT r hr c hc
+      obtain ⟨s, hs⟩ : ∃ s : SignType, (s : ℤ) = E r c := by
+        rcases hv with hv | hv | hv
+        · exact absurd hv hnz
+        · exact ⟨1, by simp [hv]⟩
+        · exact ⟨-1, by simp [hv]⟩
+      refine ⟨⟨c, hc⟩, s, ?_⟩
+      funext y
+      by_cases hy : y = ⟨c, hc⟩
+      · subst hy
+        simp [mxOn, hs]
+      · rw [Pi.single_eq_of_ne hy]
+        simp only [mxOn]
+        by_contra hne
+        exact hy (Subtype.ext (huniq y.1 y.2 hne))
+    · right
+      refine ⟨⟨r2, hr2⟩, fun hc => hne (congrArg Subtype.val hc), ?_⟩
+      rcases hcopy with hc | ⟨_, hc⟩
+      · refine ⟨1, Or.inl rfl, ?_⟩
+        funext y
+        simp only [mxOn, one_smul]
+        exact hc y.1 y.2
+      · refine ⟨-1, Or.inr rfl, ?_⟩
+        funext y
+        simp only [mxOn, Pi.smul_apply, smul_eq_mul, neg_mul, one_mul]
+        exact hc y.1 y.2
+
+
+end TU
 
 end Cmr
